@@ -76,7 +76,7 @@ def classify(agg, path, body, eft_bodies):
     # k6 integer low word kept, high word rounded
     if tag(hi) == "call" and hi[1] in ROUNDERS and len(hi) == 3 and tag(hi[2]) == "field" and tag(lo) == "field" and hi[2][1] is lo[1] and hi[2][2] == 0 and lo[2] == 1:
         for c, v in path:
-            if v is True and tag(c) == "cmp" and c[1] == "eq":
+            if tag(c) == "cmp" and ((v is True and c[1] == "eq") or (v is False and c[1] == "ne")):
                 x, z = c[3], c[4]
                 if cval(z) == 0.0 and tag(x) == "field" and x[2] == 0 and tag(x[1]) == "call" and x[1][1] == "libm::modf" and x[1][2] is lo:
                     return "k6", "hi rounded by %s while modf(lo).0 == 0 (lo is an integer: lo = 0 or hi already integral)" % hi[1]
